@@ -53,3 +53,7 @@ mod tests {
         Ok(())
     }
 }
+
+#[cfg(kani)]
+#[path = "/verif/harness/cram/reader_substitution_matrix.rs"]
+mod verif_kani;
